@@ -21,6 +21,13 @@ PROP = dict(
           "are also hashed and rendered while the process locale is not the default one (global C++ locale with a digit-grouping numpunct facet, "
           "grouping by 3 with ',' / by 1-2 with '.' and decimal comma plus errno = ERANGE; C locale switched to C.UTF-8 by setlocale plus errno = "
           "EINVAL), the previous locale being restored after each case. "
+          "After main(): every shard (and every replay) computes, inside main() and before the subchecks, the reference values (zlib, OpenSSL, FNV "
+          "recurrence) of crc32 (plain and chained with a seed), fnv1a32/64 (plain and chained) and MD5 / SHA-1 / SHA-256 bin() and hex() on six fixed "
+          "inputs (empty, 1, 9, 64, 256 and 5000 bytes) and calls every phosg function once; the same calls are repeated after main() has returned, "
+          "from an atexit handler registered as the first statement of main() and from the destructor of a namespace-scope object of the harness "
+          "translation unit (linked before the library, hence destroyed after everything first used inside main()); a mismatch there ends the "
+          "process with VERIF-ABORT: after-main-<function> (signature c10_hash/crash:abort:after-main-<function>; ASan reports a use of destroyed "
+          "lazily-built state itself). "
           "Digest-directed classes: the renderings take the digest VALUE as input, and classes of that value (all bytes printable ASCII / below "
           "0x80 / from 0x80, hex text of decimal digits only, >= 5 leading zero nibbles, every 32-bit word starting with a zero nibble, >= 3 zero "
           "bytes) cannot be reached by choosing lengths or contents; the fixed candidate messages \"c10/<i>\" (i < 2^25, thorough 2^28; SHA-1 and "
@@ -39,6 +46,8 @@ PROP = dict(
                  "SHA: big-endian words); this treats every state value as the digest of some message - for these hash functions every value is believed to be one, but no "
                  "message is exhibited. For the value classes a search reaches (MD5 digests of printable bytes ...) subcheck digest exhibits real messages; an all-printable "
                  "SHA-1 digest would need about 2e8 candidates and a SHA-256 one 2e13, out of reach of a quick (or thorough) run",
+                 "the functions have no 'not yet / no longer usable' phase: a call made during static destruction or from an atexit handler (after main() returned) "
+                 "must return the same value as the same call inside main()",
                  "a crc32/fnv seed is a running value of the same function (zlib's crc32(crc, buf, len) semantics)"],
     min_evaluations_quick=50000,
     engine="rapidcheck + exhaustive enumerators",
